@@ -30,15 +30,17 @@ func createOperation(def definitions.ControllerMetadata, route definitions.Route
 }
 
 func createErrorResponse(doc *v3.Document, route definitions.RouteMetadata, errResp definitions.ErrorResponse) *v3.Response {
-	errorReturnType := route.GetErrorReturnType()
+	// The route's metadata is shared with whatever runs after the spec generator (the other OpenAPI version,
+	// the routes generator): only the name documented here changes, never the metadata itself
+	errorTypeName := route.GetErrorReturnType().Name
 
 	// Every vanilla error should be RFC7807
 	// User can override it by inheriting from error and add it's own error schema (as any other schema)
-	if errorReturnType.Name == "error" {
-		errorReturnType.Name = definitions.Rfc7807ErrorName
+	if errorTypeName == "error" {
+		errorTypeName = definitions.Rfc7807ErrorName
 	}
 
-	content := createContentWithSchemaRef(doc, "", errorReturnType.Name)
+	content := createContentWithSchemaRef(doc, "", errorTypeName)
 
 	return &v3.Response{
 		Description: ToResponseDescription(errResp.Description),
